@@ -3,6 +3,7 @@
   Property theorems only (helper lemmas are private or live in Lemmas/TcpclCodec.lean).
 -/
 import DtnVerif.Lemmas.TcpclCodec
+import DtnVerif.Lemmas.TcpclDecodeWF
 import DtnVerif.Generated.Facts
 namespace DtnVerif
 namespace Tcpcl
@@ -608,6 +609,36 @@ theorem C07_rfc_layout_counterexample : ¬ (∀ m : Msg, encode m = rfcEncode m)
 theorem C07_reject_swapped (rejId reason : Nat) :
     encode (.msgReject rejId reason) = rfcEncode (.msgReject reason rejId) := by
   simp [encode, Msg.type, Msg.body, rfcEncode, tMsgReject, List.append_assoc]
+
+/-- **Whatever octets arrive, in whatever chunks, every message handed on has in-range fields** (type
+    octet known, every number below the bound of its fixed-width field, data and extension lengths as
+    announced, no extension list outside START), and the messages extracted from a stream carry no
+    more data octets than the stream has: nothing is invented by the framing layer. For every octet
+    string — well-formed, truncated, hostile. -/
+theorem C07_decoded_wf (chunks : List Bytes) :
+    (∀ m ∈ (feedAll {} chunks).2, m.WF) ∧ sumData (feedAll {} chunks).2 ≤ chunks.flatten.length := by
+  have gen : ∀ (cs : List Bytes) (rx : Rx), (∀ m ∈ (feedAll rx cs).2, m.WF)
+      ∧ sumData (feedAll rx cs).2 + (feedAll rx cs).1.buf.length ≤ rx.buf.length + cs.flatten.length := by
+    intro cs
+    induction cs with
+    | nil => intro rx; exact ⟨by simp [feedAll], by simp [feedAll]⟩
+    | cons c cs ih =>
+      intro rx
+      obtain ⟨w1, l1⟩ := feed_wf rx c
+      obtain ⟨w2, l2⟩ := ih (feed rx c).1
+      have hfa : feedAll rx (c :: cs) = ((feedAll (feed rx c).1 cs).1, (feed rx c).2 ++ (feedAll (feed rx c).1 cs).2) := rfl
+      rw [hfa]
+      refine ⟨?_, ?_⟩
+      · intro m hm
+        rcases List.mem_append.mp hm with h | h
+        · exact w1 m h
+        · exact w2 m h
+      · simp only [sumData_append, List.flatten_cons, List.length_append]
+        omega
+  obtain ⟨h1, h2⟩ := gen chunks {}
+  refine ⟨h1, ?_⟩
+  have : ({} : Rx).buf.length = 0 := rfl
+  omega
 
 end Tcpcl
 end DtnVerif
